@@ -190,13 +190,19 @@ static int components() {
 
 // anyarg: every public accessor of the value types on ANY component values, error values included -- C09 allows no
 // precondition ("for any argument values"); the sanitizers decide. Nothing is compared here.
-static int anyarg() {
+static int anyarg(bool want_valid) {
+  // two passes, so that a finding is identified by its input class: `valid` = every component within its documented range
+  // (a real calendar date / time of day), `invalid` = everything else
+#define CLASS_OK(isvalid) ((isvalid) == want_valid)
   static const int years[] = {-32768, -1, 0, 1872, 1873, 1900, 2000, 2100, 2127, 2128, 9999, 32767};
   LocalDate ref = LocalDate::forComponents(2000, 1, 1);
   for (int y : years) for (int m = 0; m < 256; m++) {
-    sink += LocalDate::daysInMonth((int16_t) y, (uint8_t) m); sink += LocalDate::isLeapYear((int16_t) y);
+    bool ymvalid = (y >= 1873 && y <= 2127 && m >= 1 && m <= 12);
+    if (CLASS_OK(ymvalid)) { sink += LocalDate::daysInMonth((int16_t) y, (uint8_t) m); sink += LocalDate::isLeapYear((int16_t) y); }
     nops += 2;
     for (int d = 0; d < 256; d += (m <= 13 || m >= 250 ? 1 : 17)) {
+      bool dvalid = ymvalid && d >= 1 && d <= (int) (m == 2 ? (((y % 4 == 0 && y % 100 != 0) || y % 400 == 0) ? 29 : 28) : ((m == 4 || m == 6 || m == 9 || m == 11) ? 30 : 31));
+      if (!CLASS_OK(dvalid)) continue;
       LocalDate ld = LocalDate::forComponents((int16_t) y, (uint8_t) m, (uint8_t) d);
       sink += ld.dayOfWeek(); sink += ld.toEpochDays(); sink += ld.toEpochSeconds(); sink += ld.toUnixDays(); sink += ld.toUnixSeconds();
       sink += ld.compareTo(ref) + (ld == ref) + ld.year() + ld.yearTiny() + ld.month() + ld.day() + ld.isError();
@@ -222,6 +228,7 @@ static int anyarg() {
     }
   }
   for (int h = 0; h < 256; h++) for (int mi = 0; mi < 256; mi++) for (int sc = 0; sc < 256; sc += (h <= 25 ? 1 : 51)) {
+    if (!CLASS_OK(h < 24 && mi < 60 && sc < 60)) continue;
     LocalTime lt = LocalTime::forComponents((uint8_t) h, (uint8_t) mi, (uint8_t) sc);
     sink += lt.toSeconds() + lt.isError() + lt.compareTo(LocalTime::forComponents(1, 2, 3));
     nops += 3;
@@ -229,6 +236,7 @@ static int anyarg() {
   }
   ace_time::DateStrings ds;
   for (int v = 0; v < 256; v++) {
+    if (!CLASS_OK(v >= 1 && v <= 7)) continue;
     sink += strlen(ds.dayOfWeekLongString((uint8_t) v)); sink += strlen(ds.dayOfWeekShortString((uint8_t) v));
     sink += strlen(ds.monthLongString((uint8_t) v)); sink += strlen(ds.monthShortString((uint8_t) v));
     for (int w = 0; w < 256; w++) {
@@ -245,7 +253,7 @@ static int anyarg() {
 }
 
 int main(int argc, char** argv) {
-  if (argc >= 2 && !strcmp(argv[1], "anyarg")) return anyarg();
+  if (argc >= 3 && !strcmp(argv[1], "anyarg")) return anyarg(!strcmp(argv[2], "valid"));
   if (argc >= 5 && !strcmp(argv[1], "instants")) return instants(atol(argv[2]), atol(argv[3]), atol(argv[4]));
   if (argc >= 2 && !strcmp(argv[1], "components")) return components();
   return 2;
